@@ -308,7 +308,7 @@ def gen_cases(ck):
         cases.append(build(16, 1, U32 - 1, 1000, 64, fail=(t, "recv_timeout")))
         cases.append(build(40, 1, 5, 1000, 64, fail=(t, "status_denied")))
     # structured random
-    for _ in range(1200 if quick else 20000):
+    for _ in range(500 if quick else 20000):
         k = rng.range(0, 16)
         al = 1 << k
         def pick32():
